@@ -2,9 +2,12 @@ package rules
 
 import (
 	"fmt"
+	"go/constant"
+	"go/token"
 	"go/types"
 	"sort"
 	"strings"
+	"sync"
 
 	"golang.org/x/tools/go/ssa"
 
@@ -14,7 +17,7 @@ import (
 func init() {
 	Register(&Prop{
 		ID:   "C15",
-		Expl: "Decides the recovery structure: (R1) every action with an irreversible effect (opening broadcast, the three spends, the two payment calls) is either used only by FailOnrecover states or its effect call is dominated by a guard on a persisted SwapData field that the same function assigns after the effect, and whose 'already done' branch cannot reach the effect or a failure; (R2) every state whose action builds a request/agreement message is FailOnrecover and sending states send the persisted NextMessage bytes; (R3) IsFinished is true exactly for the terminal states of all tables and RecoverSwaps calls Recover only when IsFinished is false; (R4) terminal states have no events (nothing runs after cancel); (R5) RecoverSwaps binds (type, role) to the same table as the constructors, for all four combinations; (R6) every FailOnrecover state accepts Event_ActionFailed.",
+		Expl: "Decides the recovery structure: (R1) every action with an irreversible effect (opening broadcast, the three spends, the two payment calls) is either used only by FailOnrecover states or, on every static call chain from the action to the effect call, some call of the chain is dominated by a guard on a persisted SwapData field that is assigned after the effect (in the same function or further down the chain), and whose 'already done' branch cannot reach the effect or a failure; (R2) every state whose action builds a request/agreement message is FailOnrecover and sending states send the persisted NextMessage bytes; (R3) IsFinished is true exactly for the terminal states of all tables (decided by evaluating IsFinished's control flow for every state constant) and Recover is called from RecoverSwaps (incl. the goroutines and helpers it starts) only when IsFinished is false; (R4) terminal states have no events (nothing runs after cancel); (R5) RecoverSwaps binds (type, role) to the same table as the constructors, for all four combinations; (R6) every FailOnrecover state accepts Event_ActionFailed.",
 		NotD: "Duplicate suppression inside the Lightning node or wallet; behaviour of a payment that is in flight during the crash.",
 		Run:  runC15,
 	})
@@ -22,8 +25,16 @@ func init() {
 
 var c15Irreversible = []string{fxOpenTx, fxPreimageSpend, fxCsvSpend, fxCoopSpend, fxPay, fxPayViaChannel, fxPayInvoice}
 
+// c15Use records who runs one irreversible effect call.
+type c15Use struct {
+	in       ssa.CallInstruction
+	roots    map[*ssa.Function]bool // Execute functions whose summary contains the call
+	states   []string
+	failOnly bool
+}
+
 func runC15(c *an.Check) {
-	c.Rule("C15.R1", "irreversible effect: FailOnrecover-only state, or guarded by a persisted field assigned after the effect")
+	c.Rule("C15.R1", "irreversible effect: FailOnrecover-only state, or guarded (at the effect or at a call leading to it) by a persisted field assigned after the effect")
 	c.Rule("C15.R2", "request/agreement builders are FailOnrecover; senders send the persisted NextMessage")
 	c.Rule("C15.R3", "IsFinished == terminal states; Recover only when not finished")
 	c.Rule("C15.R4", "terminal states have no events; cancelled is terminal")
@@ -37,108 +48,44 @@ func runC15(c *an.Check) {
 	if ts == nil {
 		return
 	}
+	idx := c15BuildCallIdx(w)
 
 	// ---- R1 ------------------------------------------------------------------
-	type siteKey struct {
-		fn   *ssa.Function
-		name string
-	}
-	failOnly := map[ssa.CallInstruction]bool{}   // site used only by FailOnrecover states
-	usedBy := map[ssa.CallInstruction][]string{} // states
+	uses := map[ssa.CallInstruction]*c15Use{}
+	instances := map[string]bool{} // (state, effect) pairs: the semantic instances
 	for _, t := range ts {
 		for _, s := range t.T.Order {
-			for _, ef := range t.Sum[s].Effects {
-				for _, irr := range c15Irreversible {
-					if ef.Name != irr {
-						continue
-					}
-					in := ef.Info.Instr
-					if _, seen := usedBy[in]; !seen {
-						failOnly[in] = true
-					}
-					usedBy[in] = append(usedBy[in], t.key(s))
-					if !t.T.States[s].FailOnRecover {
-						failOnly[in] = false
+			for _, ex := range t.Sum[s].Execs {
+				for _, ef := range w.Summary(ex).Effects {
+					for _, irr := range c15Irreversible {
+						if ef.Name != irr {
+							continue
+						}
+						in := ef.Info.Instr
+						u := uses[in]
+						if u == nil {
+							u = &c15Use{in: in, roots: map[*ssa.Function]bool{}, failOnly: true}
+							uses[in] = u
+						}
+						u.roots[ex] = true
+						u.states = append(u.states, t.key(s))
+						instances[t.key(s)+" "+irr] = true
+						if !t.T.States[s].FailOnRecover {
+							u.failOnly = false
+						}
 					}
 				}
 			}
 		}
 	}
-	c.AtLeast("C15.R1", "irreversible effect call sites in actions", len(usedBy), 6)
-	var sites []ssa.CallInstruction
-	for in := range usedBy {
-		sites = append(sites, in)
+	c.AtLeast("C15.R1", "(state, irreversible effect) pairs in the tables", len(instances), 11)
+	var sites []*c15Use
+	for _, u := range uses {
+		sites = append(sites, u)
 	}
-	sort.Slice(sites, func(i, j int) bool { return sites[i].Pos() < sites[j].Pos() })
-	for _, in := range sites {
-		fn := in.Parent()
-		ci := w.Info(in)
-		cons := w.FuncName(fn) + " effect " + strings.TrimPrefix(ci.Name, "iface:")
-		if failOnly[in] {
-			c.OK("C15.R1", cons, w.Pos(in.Pos()), "only run by FailOnrecover states: "+strings.Join(usedBy[in], ", "))
-			continue
-		}
-		call, ok := in.(*ssa.Call)
-		if !ok {
-			c.Unknown("C15.R1", cons, w.Pos(in.Pos()), "effect is not a plain call")
-			continue
-		}
-		facts := w.FactsDominating(call)
-		okE, _ := an.OkEdges(call)
-		var after map[*ssa.BasicBlock]bool
-		if len(okE) > 0 {
-			var st []*ssa.BasicBlock
-			for _, e := range okE {
-				st = append(st, e.To())
-			}
-			after = an.ReachBlocks(st, nil, nil)
-		} else {
-			after = an.ReachFromInstr(call)
-			after[call.Block()] = true
-		}
-		guard := ""
-		for _, f := range facts {
-			fld := c15ZeroGuardField(f)
-			if fld == "" {
-				continue
-			}
-			// assigned after the effect in the same function?
-			assigned := false
-			for _, st := range storesTo(fn, fld) {
-				if after[st.Block()] {
-					assigned = true
-				}
-			}
-			if !assigned {
-				continue
-			}
-			// the "already done" edge must not reach the effect nor return a failure
-			other := an.Edge{From: f.Edge.From, Idx: 1 - f.Edge.Idx}
-			reach := an.ReachBlocks([]*ssa.BasicBlock{other.To()}, nil, nil)
-			if reach[call.Block()] {
-				continue
-			}
-			bad := false
-			for ev := range returnEventsFrom(w, fn, reach) {
-				if ev != evSucceeded && ev != "NEXT" {
-					bad = true
-				}
-			}
-			if bad {
-				continue
-			}
-			guard = fld
-		}
-		if guard != "" {
-			// the re-execution path (result already recorded) must not consult outside services
-			imp := impureCallsIn(w, fn, alreadyDoneRegion(w, fn, guard))
-			c.Decide(len(imp) == 0, "C15.R1", cons+" already-done path", w.Pos(in.Pos()),
-				"when "+guard+" is already recorded the action decides from the persisted record alone",
-				"when "+guard+" is already recorded (re-execution after a restart) the action still calls outside services before it returns: "+strings.Join(imp, "; ")+" - a failure or a changed answer there fails an action whose irreversible effect already happened")
-		}
-		c.Decide(guard != "", "C15.R1", cons, w.Pos(in.Pos()),
-			"guarded by persisted field "+guard+" which this function assigns after the effect",
-			fmt.Sprintf("this irreversible call is re-executed by Recover (states %s are not FailOnrecover) and no guard on a persisted result field protects it: a crash after the post-action store write and before the next state is stored repeats it. Facts that hold: %s", strings.Join(usedBy[in], ", "), an.DescribeFacts(facts)))
+	sort.Slice(sites, func(i, j int) bool { return sites[i].in.Pos() < sites[j].in.Pos() })
+	for _, u := range sites {
+		c15EffectGuard(c, idx, u)
 	}
 
 	// ---- R2 ------------------------------------------------------------------
@@ -152,25 +99,43 @@ func runC15(c *an.Check) {
 	for _, t := range ts {
 		for _, s := range t.T.Order {
 			e := t.T.States[s]
-			for _, ef := range t.Sum[s].Effects {
-				if ef.Info.Static != marshal {
-					continue
+			done := map[string]bool{}
+			for _, ex := range t.Sum[s].Execs {
+				for _, ef := range w.Summary(ex).Effects {
+					if ef.Info.Static != marshal {
+						continue
+					}
+					args := ef.Info.Instr.Common().Args
+					if len(args) != 1 {
+						continue
+					}
+					tns, resolved := c15DynTypes(w, idx, ex, ef.Info.Instr, args[0])
+					for _, tn := range tns {
+						if !negotiation[tn] || done[tn] {
+							continue
+						}
+						done[tn] = true
+						if !done["#"] {
+							done["#"] = true
+							nBuild++
+						}
+						c.Decide(e.FailOnRecover, "C15.R2", t.key(s)+" builds "+tn, t.pos(c, s),
+							"message builder is failed, not re-run, on recovery", "a state that builds "+tn+" is re-executed on recovery: the re-sent message can carry different parameters (new premium, new invoice, new anchor)")
+					}
+					if !resolved && !done["?"] {
+						done["?"] = true
+						if !done["#"] {
+							done["#"] = true
+							nBuild++
+						}
+						if e.FailOnRecover {
+							c.OK("C15.R2", t.key(s)+" builds a message of unresolved type", t.pos(c, s), "message builder is failed, not re-run, on recovery")
+						} else {
+							c.Unknown("C15.R2", t.key(s)+" builds a message of unresolved type", w.Pos(ef.Info.Instr.Pos()),
+								"the concrete type of the message marshalled here cannot be resolved (interface value that does not come from a constructor expression on the call chain); if it is a request/agreement the state must be FailOnrecover")
+						}
+					}
 				}
-				args := ef.Info.Instr.Common().Args
-				if len(args) != 1 {
-					continue
-				}
-				tn := c15DynType(args[0])
-				if tn != "" && !negotiation[tn] {
-					continue
-				}
-				nBuild++
-				what := tn
-				if what == "" {
-					what = "a request (dynamic type)"
-				}
-				c.Decide(e.FailOnRecover, "C15.R2", t.key(s)+" builds "+what, t.pos(c, s),
-					"message builder is failed, not re-run, on recovery", "a state that builds "+what+" is re-executed on recovery: the re-sent message can carry different parameters (new premium, new invoice, new anchor)")
 			}
 			// senders use the persisted bytes
 			for _, ef := range t.Sum[s].Sites(fxSendMessage) {
@@ -182,8 +147,13 @@ func runC15(c *an.Check) {
 					continue
 				}
 				src := w.Sources(args[1], an.FlowOpts{})
-				c.Decide(len(src.Leaves) == 1 && src.Has("field", "SwapData.NextMessage"), "C15.R2", w.FuncName(ef.In)+" payload", w.Pos(ef.Info.Instr.Pos()),
-					"sends the persisted NextMessage", "payload does not come from the persisted NextMessage: "+strings.Join(src.Names(), ","))
+				if len(src.Leaves) == 1 && src.Has("field", "SwapData.NextMessage") {
+					c.OK("C15.R2", w.FuncName(ef.In)+" payload", w.Pos(ef.Info.Instr.Pos()), "sends the persisted NextMessage")
+				} else if src.HasPrefix("unknown", "") || src.HasPrefix("param", "") {
+					c.Unknown("C15.R2", w.FuncName(ef.In)+" payload", w.Pos(ef.Info.Instr.Pos()), "origin of the payload cannot be resolved: "+strings.Join(src.Names(), ","))
+				} else {
+					c.Bad("C15.R2", w.FuncName(ef.In)+" payload", w.Pos(ef.Info.Instr.Pos()), "payload does not come from the persisted NextMessage: "+strings.Join(src.Names(), ","))
+				}
 			}
 		}
 	}
@@ -191,12 +161,20 @@ func runC15(c *an.Check) {
 
 	// ---- R3 / R4 ---------------------------------------------------------------
 	terms := map[string]bool{}
+	universe := map[string]bool{}
 	for _, t := range ts {
+		for _, s := range t.T.Order {
+			universe[s] = true
+		}
 		for _, s := range t.terminals() {
 			terms[s] = true
 			ss := t.Sum[s]
 			onlyDone := len(ss.Events) == 1 && ss.Events[evDone] && !ss.Unknown
-			c.Decide(onlyDone, "C15.R4", t.key(s)+" terminal", t.pos(c, s), "terminal: no events, action returns only Event_Done", fmt.Sprintf("terminal state's action may return %v", sortedKeys(ss.Events)))
+			if !onlyDone && ss.Unknown && len(ss.Events) <= 1 && (len(ss.Events) == 0 || ss.Events[evDone]) {
+				c.Unknown("C15.R4", t.key(s)+" terminal", t.pos(c, s), "the value returned by the terminal state's action cannot be resolved")
+			} else {
+				c.Decide(onlyDone, "C15.R4", t.key(s)+" terminal", t.pos(c, s), "terminal: no events, action returns only Event_Done", fmt.Sprintf("terminal state's action may return %v", sortedKeys(ss.Events)))
+			}
 		}
 		// cancelled state: target of the cancel-sending action's success
 		for _, s := range t.T.Order {
@@ -213,15 +191,18 @@ func runC15(c *an.Check) {
 	if fin == nil {
 		c.Anchor("(*SwapStateMachine).IsFinished does not resolve")
 	} else {
-		set, ok := c15TrueSet(w, fin, "SwapStateMachine.Current")
-		if !ok {
-			c.Unknown("C15.R3", "(*SwapStateMachine).IsFinished shape", w.Pos(fin.Pos()), "cannot extract the set of states for which IsFinished returns true")
+		set, why := c15FinishedSet(w, fin, "SwapStateMachine.Current", universe)
+		if set == nil {
+			c.Unknown("C15.R3", "(*SwapStateMachine).IsFinished shape", w.Pos(fin.Pos()), "cannot extract the set of states for which IsFinished returns true: "+why)
 		} else {
-			for s := range terms {
+			for _, s := range sortedKeys(terms) {
 				c.Decide(set[s], "C15.R3", "IsFinished covers "+s, w.Pos(fin.Pos()), "terminal state counts as finished", "terminal state "+s+" is not finished for IsFinished: it is recovered (its action re-run) after every restart and keeps its channel locked")
 			}
-			for s := range set {
-				c.Decide(terms[s], "C15.R3", "IsFinished only-terminal "+s, w.Pos(fin.Pos()), "finished state is terminal in every table", "IsFinished reports the non-terminal state "+s+" as finished: a restart abandons the swap in that state")
+			for _, s := range sortedKeys(set) {
+				if !universe[s] {
+					continue // a constant that is no state of any table: harmless
+				}
+				c.Decide(terms[s], "C15.R3", "IsFinished only-terminal "+s, w.Pos(fin.Pos()), "finished state is terminal in every table", "IsFinished reports the non-terminal state "+nonEmpty(s)+" as finished: a restart abandons the swap in that state")
 			}
 		}
 	}
@@ -231,68 +212,150 @@ func runC15(c *an.Check) {
 		c.Anchor("Recover / RecoverSwaps do not resolve")
 		return
 	}
+	scope := c15Scope(w, rs)
 	nRec := 0
-	fns := append([]*ssa.Function{rs}, rs.AnonFuncs...)
-	for _, fn := range fns {
+	for _, fn := range scope {
 		for _, call := range an.Calls(fn) {
 			if call.Common().StaticCallee() != rec {
 				continue
 			}
 			nRec++
-			facts := w.FactsDominating(call)
-			c.Decide(an.AnyFact(facts, func(f an.Fact) bool { return an.AtomIs(f, ").IsFinished", false) }), "C15.R3", "RecoverSwaps Recover-only-unfinished", w.Pos(call.Pos()),
-				"Recover is called only when IsFinished() is false", "Recover is called on finished swaps: their terminal action (and everything it triggers) runs again")
+			isUnfinished := func(f an.Fact) bool { return an.AtomIs(f, ").IsFinished", false) }
+			chains := c15Chains(w, idx, rs, call, true)
+			guarded, complete := true, len(chains) > 0
+			if !complete {
+				guarded = an.AnyFact(w.FactsDominating(call), isUnfinished)
+			}
+			for _, ch := range chains {
+				g := false
+				for _, st := range ch {
+					if an.AnyFact(w.FactsDominating(st.Call), isUnfinished) {
+						g = true
+					}
+				}
+				if !g {
+					guarded = false
+				}
+			}
+			// positively wrong: nobody tests IsFinished at all, or this very swap is
+			// recovered on a path where IsFinished() returned true; a test that does not
+			// dominate the call and is made on another value (e.g. a filter loop that
+			// collects the unfinished swaps first) is not interpreted
+			tested, witness := false, false
+			for _, sf := range scope {
+				for _, sc := range an.Calls(sf) {
+					if g := sc.Common().StaticCallee(); g != nil && g == fin {
+						tested = true
+					}
+				}
+			}
+			for _, ch := range chains {
+				if c15FinishedWitness(w, fin, ch) {
+					witness = true
+				}
+			}
+			switch {
+			case guarded:
+				c.OK("C15.R3", "RecoverSwaps Recover-only-unfinished", w.Pos(call.Pos()), "Recover is called only when IsFinished() is false")
+			case complete && tested && !witness:
+				c.Unknown("C15.R3", "RecoverSwaps Recover-only-unfinished", w.Pos(call.Pos()), "IsFinished is tested in the recovery code but not as a condition that dominates this Recover call (filtering through a collection or a predicate helper is not interpreted)")
+			case complete:
+				c.Bad("C15.R3", "RecoverSwaps Recover-only-unfinished", w.Pos(call.Pos()), "Recover is called on finished swaps: their terminal action (and everything it triggers) runs again")
+			default:
+				c.Unknown("C15.R3", "RecoverSwaps Recover-only-unfinished", w.Pos(call.Pos()), "the call chain from RecoverSwaps to this Recover call cannot be followed (function value), so a guard at a caller cannot be excluded")
+			}
 		}
 	}
-	c.AtLeast("C15.R3", "Recover call sites in RecoverSwaps", nRec, 1)
+	c.AtLeast("C15.R3", "Recover call sites reached from RecoverSwaps", nRec, 1)
 
 	// ---- R5 ------------------------------------------------------------------
-	// *FromStore functions: assign <table>() to SwapStateMachine.States
-	fromStore := map[*ssa.Function]string{}
+	// *FromStore functions: assign <table>() to SwapStateMachine.States, or take
+	// the table as a parameter.
+	fromStore := map[*ssa.Function]string{} // function -> table function name
+	fromStoreArg := map[*ssa.Function]int{} // function -> index of the States parameter
 	for _, st := range w.FieldWriters("SwapStateMachine.States") {
 		fn := st.Parent()
 		if w.FnRel(fn) != "swap" {
 			continue
 		}
-		if cv, ok := st.Val.(*ssa.Call); ok {
-			if callee := cv.Common().StaticCallee(); callee != nil {
+		switch v := st.Val.(type) {
+		case *ssa.Call:
+			if callee := v.Common().StaticCallee(); callee != nil {
 				if _, isTable := ts[0].F.ByFunc[callee.Name()]; isTable {
 					fromStore[fn] = callee.Name()
+				}
+			}
+		case *ssa.Parameter:
+			for i, p := range fn.Params {
+				if p == v {
+					fromStoreArg[fn] = i
 				}
 			}
 		}
 	}
 	seenCombos := map[string]bool{}
-	typeN := w.Named("swap", "SwapType")
-	_ = typeN
-	for _, fn := range fns {
+	anyUnknown := false
+	nBind := 0
+	for _, fn := range scope {
 		for _, call := range an.Calls(fn) {
 			callee := call.Common().StaticCallee()
-			tb, ok := fromStore[callee]
-			if !ok {
+			if callee == nil {
 				continue
 			}
-			facts := w.FactsDominating(call)
-			var tv, rv *int64
-			for _, f := range facts {
-				if f.NonNum || f.Rel != "==" || len(f.Terms) != 1 {
+			tb, ok := fromStore[callee]
+			if !ok {
+				ai, isArg := fromStoreArg[callee]
+				if !isArg {
 					continue
 				}
-				for term, coef := range f.Terms {
-					v := -f.Const * coef
-					switch {
-					case strings.Contains(term, "SwapStateMachine.Type"):
-						x := v
-						tv = &x
-					case strings.Contains(term, "SwapStateMachine.Role"):
-						x := v
-						rv = &x
+				args := call.Common().Args
+				if ai < len(args) {
+					if cv, isCall := args[ai].(*ssa.Call); isCall {
+						if tf := cv.Common().StaticCallee(); tf != nil {
+							if _, isTable := ts[0].F.ByFunc[tf.Name()]; isTable {
+								tb, ok = tf.Name(), true
+							}
+						}
 					}
+				}
+				if !ok {
+					if _, inScope := fromStoreArg[fn]; inScope {
+						continue // the parametrised function itself, forwarding its parameter
+					}
+					anyUnknown = true
+					c.Unknown("C15.R5", "RecoverSwaps -> "+w.FuncName(callee), w.Pos(call.Pos()), "the state table passed here is not a direct call of a table function")
+					continue
+				}
+			}
+			nBind++
+			var facts []an.Fact
+			chains := c15Chains(w, idx, rs, call, true)
+			if len(chains) == 0 {
+				facts = w.FactsDominating(call)
+			} else {
+				for _, st := range chains[0] {
+					facts = append(facts, w.FactsDominating(st.Call)...)
+				}
+			}
+			tv, rv := c15TypeRole(facts)
+			// every other chain must give the same answer
+			for _, ch := range chains[min(1, len(chains)):] {
+				var fs []an.Fact
+				for _, st := range ch {
+					fs = append(fs, w.FactsDominating(st.Call)...)
+				}
+				t2, r2 := c15TypeRole(fs)
+				if tv == nil || rv == nil || t2 == nil || r2 == nil || *t2 != *tv || *r2 != *rv {
+					tv, rv = nil, nil
 				}
 			}
 			table := ts[0].F.ByFunc[tb]
 			cons := "RecoverSwaps -> " + w.FuncName(callee)
+			if callee != nil && fromStore[callee] == "" {
+				cons += "(" + tb + ")"
+			}
 			if tv == nil || rv == nil {
+				anyUnknown = true
 				c.Unknown("C15.R5", cons, w.Pos(call.Pos()), "cannot determine the (type, role) condition under which this table is chosen: "+an.DescribeFacts(facts))
 				continue
 			}
@@ -304,7 +367,15 @@ func runC15(c *an.Check) {
 	}
 	for _, t := range ts {
 		k := fmt.Sprintf("%d/%d", t.T.Type, t.T.Role)
-		c.Decide(seenCombos[k], "C15.R5", "RecoverSwaps handles "+t.Name(), w.Pos(rs.Pos()), "combination is recovered", "swaps of "+t.Name()+" are never given a state table on recovery")
+		cons := "RecoverSwaps handles " + t.Name()
+		switch {
+		case seenCombos[k]:
+			c.OK("C15.R5", cons, w.Pos(rs.Pos()), "combination is recovered")
+		case anyUnknown || nBind == 0:
+			c.Unknown("C15.R5", cons, w.Pos(rs.Pos()), "no table binding for this combination was recognised among the functions reached from RecoverSwaps (some bindings could not be interpreted, or the dispatch is not a chain of (type, role) tests)")
+		default:
+			c.Bad("C15.R5", cons, w.Pos(rs.Pos()), "swaps of "+t.Name()+" are never given a state table on recovery")
+		}
 	}
 
 	// ---- R6 ------------------------------------------------------------------
@@ -318,6 +389,378 @@ func runC15(c *an.Check) {
 			c.Decide(ok, "C15.R6", t.key(s)+" accepts ActionFailed", t.pos(c, s), "FailOnrecover state can be failed", "FailOnrecover state does not accept Event_ActionFailed: Recover's SendEvent is rejected and the swap stays active forever")
 		}
 	}
+}
+
+// c15FinishedWitness: in some function of the chain IsFinished is called on the
+// value that the chain's call then works on, and the branch taken when it
+// returned true still reaches that call.
+func c15FinishedWitness(w *an.World, fin *ssa.Function, ch []c15Step) bool {
+	if fin == nil {
+		return false
+	}
+	for _, st := range ch {
+		// values the call of this level works on, with what they are derived from
+		related := map[ssa.Value]bool{}
+		var back func(v ssa.Value, depth int)
+		back = func(v ssa.Value, depth int) {
+			if v == nil || related[v] || depth > 8 {
+				return
+			}
+			related[v] = true
+			switch x := v.(type) {
+			case *ssa.Phi:
+				for _, e := range x.Edges {
+					back(e, depth+1)
+				}
+			case *ssa.Call:
+				if g := x.Common().StaticCallee(); g != nil && w.InModule(g) {
+					for _, a := range x.Common().Args {
+						back(a, depth+1)
+					}
+				}
+			case *ssa.ChangeType:
+				back(x.X, depth+1)
+			case *ssa.MakeClosure:
+				for _, b := range x.Bindings {
+					back(b, depth+1)
+				}
+			case *ssa.UnOp:
+				if al, ok := x.X.(*ssa.Alloc); ok && x.Op == token.MUL && al.Referrers() != nil {
+					for _, r := range *al.Referrers() {
+						if s, ok := r.(*ssa.Store); ok && s.Addr == al {
+							back(s.Val, depth+1)
+						}
+					}
+				}
+			}
+		}
+		for _, a := range st.Call.Common().Args {
+			back(a, 0)
+		}
+		if !st.Call.Common().IsInvoke() {
+			back(st.Call.Common().Value, 0)
+		}
+		for _, c2 := range an.Calls(st.Fn) {
+			cv, ok := c2.(*ssa.Call)
+			if !ok || cv.Common().StaticCallee() != fin || len(cv.Common().Args) == 0 || !related[cv.Common().Args[0]] {
+				continue
+			}
+			tE, _ := an.BoolEdges(cv)
+			for _, e := range tE {
+				if an.ReachBlocks([]*ssa.BasicBlock{e.To()}, nil, nil)[st.Call.Block()] {
+					return true
+				}
+			}
+		}
+	}
+	return false
+}
+
+// c15TypeRole extracts the constants that Type and Role are known to equal.
+func c15TypeRole(facts []an.Fact) (tv, rv *int64) {
+	for _, f := range facts {
+		if f.NonNum || f.Rel != "==" || len(f.Terms) != 1 {
+			continue
+		}
+		for term, coef := range f.Terms {
+			v := -f.Const * coef
+			switch {
+			case strings.Contains(term, "SwapStateMachine.Type"):
+				x := v
+				tv = &x
+			case strings.Contains(term, "SwapStateMachine.Role"):
+				x := v
+				rv = &x
+			}
+		}
+	}
+	return
+}
+
+// ---- R1: guard on a call chain ----------------------------------------------------
+
+// c15EffectGuard decides R1 for one effect call: on every static call chain
+// Execute -> ... -> effect some call of the chain must be guarded.
+func c15EffectGuard(c *an.Check, idx *c15CallIdx, u *c15Use) {
+	w := c.W
+	in := u.in
+	ci := w.Info(in)
+	cons := w.FuncName(in.Parent()) + " effect " + strings.TrimPrefix(ci.Name, "iface:")
+	pos := w.Pos(in.Pos())
+	if u.failOnly {
+		c.OK("C15.R1", cons, pos, "only run by FailOnrecover states: "+strings.Join(u.states, ", "))
+		return
+	}
+	if _, ok := in.(*ssa.Call); !ok {
+		c.Unknown("C15.R1", cons, pos, "effect is not a plain call")
+		return
+	}
+	var roots []*ssa.Function
+	for r := range u.roots {
+		roots = append(roots, r)
+	}
+	sort.Slice(roots, func(i, j int) bool { return w.FuncName(roots[i]) < w.FuncName(roots[j]) })
+	guards := map[string]bool{}
+	var impBad, impUnknown []string
+	unguarded := ""     // a complete chain without any guard: positively established
+	uninterpreted := "" // a chain we could not follow
+	allFacts := []an.Fact{}
+	for _, root := range roots {
+		chains := c15Chains(w, idx, root, in, false)
+		if len(chains) == 0 {
+			uninterpreted = "no static call chain from " + w.FuncName(root) + " to the effect could be reconstructed"
+			continue
+		}
+		for _, ch := range chains {
+			g := c15ChainGuard(w, ch, "", true, true)
+			allFacts = append(allFacts, g.facts...)
+			if g.field == "" {
+				if g.opaque != "" {
+					uninterpreted = g.opaque
+				} else {
+					unguarded = c15ChainString(w, ch)
+				}
+				continue
+			}
+			guards[g.field] = true
+			impBad = append(impBad, g.impure...)
+			impUnknown = append(impUnknown, g.impureAfter...)
+		}
+	}
+	gl := strings.Join(sortedKeys(guards), ", ")
+	switch {
+	case unguarded != "":
+		c.Bad("C15.R1", cons, pos,
+			fmt.Sprintf("this irreversible call is re-executed by Recover (states %s are not FailOnrecover) and no guard on a persisted result field protects it (call chain %s): a crash after the post-action store write and before the next state is stored repeats it. Facts that hold: %s", strings.Join(u.states, ", "), unguarded, an.DescribeFacts(allFacts)))
+		return
+	case uninterpreted != "":
+		c.Unknown("C15.R1", cons, pos, "cannot decide whether the effect is guarded: "+uninterpreted)
+		return
+	}
+	// the re-execution path (result already recorded) must not consult outside services
+	switch {
+	case len(impBad) > 0:
+		c.Bad("C15.R1", cons+" already-done path", pos,
+			"when "+gl+" is already recorded (re-execution after a restart) the action still calls outside services before it returns: "+strings.Join(c15Uniq(impBad), "; ")+" - a failure or a changed answer there fails an action whose irreversible effect already happened")
+	case len(impUnknown) > 0:
+		c.Unknown("C15.R1", cons+" already-done path", pos,
+			"the guard on "+gl+" sits inside a helper; after the helper returns its caller calls outside services ("+strings.Join(c15Uniq(impUnknown), "; ")+") and the rule cannot separate the first execution from the re-execution there")
+	default:
+		c.OK("C15.R1", cons+" already-done path", pos, "when "+gl+" is already recorded the action decides from the persisted record alone")
+	}
+	c.OK("C15.R1", cons, pos, "guarded by persisted field "+gl+" which is assigned after the effect")
+}
+
+// ==== shared-begin: call-chain / guard helpers (the same code, up to the prefix, in each of this author's rule files) ====
+
+func c15Uniq(in []string) []string {
+	m := map[string]bool{}
+	for _, s := range in {
+		m[s] = true
+	}
+	return sortedKeys(m)
+}
+
+func c15ChainString(w *an.World, ch []c15Step) string {
+	var p []string
+	for _, st := range ch {
+		p = append(p, w.FuncName(st.Fn))
+	}
+	return strings.Join(p, " -> ")
+}
+
+type c15GuardResult struct {
+	field       string // guarding field, "" if none
+	opaque      string // why the chain could not be interpreted (then field == "")
+	facts       []an.Fact
+	impure      []string // outside-service calls that certainly lie on the already-done path
+	impureAfter []string // outside-service calls in callers after a guarded helper returned
+}
+
+// c15After: blocks that execute after call succeeded (after the call when its
+// error is not tested or it has none).
+func c15After(call ssa.CallInstruction) map[*ssa.BasicBlock]bool {
+	if cv, ok := call.(*ssa.Call); ok {
+		if okE, _ := an.OkEdges(cv); len(okE) > 0 {
+			var st []*ssa.BasicBlock
+			for _, e := range okE {
+				st = append(st, e.To())
+			}
+			return an.ReachBlocks(st, nil, nil)
+		}
+	}
+	after := an.ReachFromInstr(call)
+	after[call.Block()] = true
+	return after
+}
+
+// c15ChainGuard looks for a guard `SwapData.X is zero` that dominates one call
+// of the chain, with X assigned after the effect at that level or further down.
+//
+// only restricts the search to one field ("" = any persisted field);
+// needAssigned demands the assignment after the effect; allowNext accepts an
+// already-done branch that delegates to the next action of a wrapper.
+func c15ChainGuard(w *an.World, ch []c15Step, only string, needAssigned, allowNext bool) c15GuardResult {
+	var res c15GuardResult
+	for k, st := range ch {
+		facts := w.FactsDominating(st.Call)
+		res.facts = append(res.facts, facts...)
+		for _, f := range facts {
+			fld := c15ZeroFactField(w, f)
+			if fld == "" || (only != "" && fld != only) {
+				continue
+			}
+			// assigned after the effect: at this level after the call, or at a deeper level
+			assigned := false
+			for j := k; j < len(ch); j++ {
+				after := c15After(ch[j].Call)
+				for _, s := range storesTo(ch[j].Fn, fld) {
+					if after[s.Block()] {
+						assigned = true
+					}
+				}
+				// through a recording helper called after the effect
+				for _, call := range an.Calls(ch[j].Fn) {
+					if !after[call.Block()] || call == ch[j].Call {
+						continue
+					}
+					if g := call.Common().StaticCallee(); g != nil && w.InModule(g) && c15FnStores(w, g, fld) {
+						assigned = true
+					}
+				}
+			}
+			if !assigned && needAssigned {
+				continue
+			}
+			// the "already done" edge must not reach the guarded call nor return a failure
+			other := an.Edge{From: f.Edge.From, Idx: 1 - f.Edge.Idx}
+			reach := an.ReachBlocks([]*ssa.BasicBlock{other.To()}, nil, nil)
+			if reach[st.Call.Block()] {
+				continue
+			}
+			bad, unres := false, false
+			for ev := range returnEventsFrom(w, st.Fn, reach) {
+				if ev == "?" {
+					unres = true
+				} else if ev != evSucceeded && !(ev == "NEXT" && allowNext) {
+					bad = true
+				}
+			}
+			for _, r := range an.Returns(st.Fn) {
+				if !reach[r.Block()] {
+					continue
+				}
+				for _, rv := range r.Results {
+					if an.IsErrorType(rv.Type()) && !an.IsNilConst(rv) && !c15OnlyNil(w, rv) {
+						bad = true
+					}
+				}
+			}
+			if bad {
+				continue
+			}
+			if unres {
+				res.opaque = "the already-done branch of the guard on " + fld + " in " + w.FuncName(st.Fn) + " returns an event that cannot be resolved"
+				continue
+			}
+			res.field = fld
+			res.impure, res.impureAfter = nil, nil
+			// purity of the already-done path: the guard's function with the zero
+			// edges removed, and everything the callers above run before the call
+			res.impure = append(res.impure, impureCallsIn(w, st.Fn, c15DoneRegion(w, st.Fn, fld))...)
+			for j := 0; j < k; j++ {
+				before, after := c15BeforeAfter(ch[j].Call)
+				res.impure = append(res.impure, impureCallsIn(w, ch[j].Fn, before)...)
+				for _, x := range c15ImpureExcept(w, ch[j].Fn, after, ch[j].Call) {
+					res.impureAfter = append(res.impureAfter, x)
+				}
+			}
+		}
+		if res.field != "" {
+			return res
+		}
+	}
+	if only != "" && res.opaque == "" {
+		// a dominating condition that talks about the field in a form that is not
+		// understood: do not claim the guard is missing
+		short := only[strings.LastIndex(only, ".")+1:]
+		for _, f := range res.facts {
+			if strings.Contains(f.String(), short) && c15ZeroFactField(w, f) == "" && !c15NonZeroFact(w, f, only) {
+				res.opaque = "a condition that dominates the call mentions " + only + " in a form the rule does not interpret: " + f.String()
+			}
+		}
+	}
+	return res
+}
+
+// c15NonZeroFact: f says that field is NOT zero (the interpreted opposite of a guard).
+func c15NonZeroFact(w *an.World, f an.Fact, field string) bool {
+	if !f.NonNum || f.Rel != "!=" {
+		return false
+	}
+	g := f
+	g.Rel = "=="
+	return c15ZeroFactField(w, g) == field
+}
+
+// c15OnlyNil: an error value that can only be nil (named result never assigned).
+func c15OnlyNil(w *an.World, v ssa.Value) bool {
+	src := w.Sources(v, an.FlowOpts{})
+	return len(src.Leaves) > 0 && src.OnlyFrom(func(s an.Src) bool { return s.Kind == "zero" && s.Name == "nil" })
+}
+
+// c15BeforeAfter: blocks from which call's block is reachable without having
+// executed it (strictly before) / blocks reachable after it.
+func c15BeforeAfter(call ssa.CallInstruction) (before, after map[*ssa.BasicBlock]bool) {
+	fn := call.Parent()
+	after = an.ReachFromInstr(call)
+	before = map[*ssa.BasicBlock]bool{}
+	// backward reachability from the call's block
+	work := []*ssa.BasicBlock{call.Block()}
+	seen := map[*ssa.BasicBlock]bool{call.Block(): true}
+	for len(work) > 0 {
+		b := work[len(work)-1]
+		work = work[:len(work)-1]
+		for _, p := range b.Preds {
+			if !seen[p] {
+				seen[p] = true
+				work = append(work, p)
+			}
+		}
+	}
+	for _, b := range fn.Blocks {
+		if seen[b] && b != call.Block() {
+			before[b] = true
+		}
+	}
+	return before, after
+}
+
+// c15ImpureExcept lists outside-service calls in region other than `except`.
+func c15ImpureExcept(w *an.World, fn *ssa.Function, region map[*ssa.BasicBlock]bool, except ssa.CallInstruction) []string {
+	r2 := map[*ssa.BasicBlock]bool{}
+	for b := range region {
+		if b != except.Block() {
+			r2[b] = true
+		}
+	}
+	return impureCallsIn(w, fn, r2)
+}
+
+// c15FnStores: g, or a function it reaches synchronously, stores field fld.
+func c15FnStores(w *an.World, g *ssa.Function, fld string) bool {
+	if g == nil || g.Blocks == nil {
+		return false
+	}
+	if len(storesTo(g, fld)) > 0 {
+		return true
+	}
+	for _, ef := range w.Summary(g).Effects {
+		if ef.Info.Static != nil && w.InModule(ef.Info.Static) && ef.Info.Static.Blocks != nil && len(storesTo(ef.Info.Static, fld)) > 0 {
+			return true
+		}
+	}
+	return false
 }
 
 // c15ZeroGuardField returns "SwapData.X" when fact f says that persisted field
@@ -334,6 +777,357 @@ func c15ZeroGuardField(f an.Fact) string {
 	return ""
 }
 
+// c15ZeroFactField is c15ZeroGuardField extended to predicate helpers: the fact
+// `p(swap) is true/false` where the in-module function p returns that value only
+// when SwapData.X is zero.
+func c15ZeroFactField(w *an.World, f an.Fact) string {
+	if fld := c15ZeroGuardField(f); fld != "" {
+		return fld
+	}
+	// `swap.GetX() == ""` where the in-module getter returns the field itself
+	if f.NonNum && f.Rel == "==" {
+		for _, pair := range [][2]ssa.Value{{f.LV, f.RV}, {f.RV, f.LV}} {
+			if pair[0] == nil || pair[1] == nil {
+				continue
+			}
+			zero := an.IsNilConst(pair[1])
+			if s, ok := an.ConstString(pair[1]); ok && s == "" {
+				zero = true
+			}
+			if !zero {
+				continue
+			}
+			if fld := c15GetterField(w, pair[0]); fld != "" {
+				return fld
+			}
+		}
+	}
+	if f.Rel != "true" && f.Rel != "false" {
+		return ""
+	}
+	call, ok := f.Cond.(*ssa.Call)
+	if !ok {
+		return ""
+	}
+	g := call.Common().StaticCallee()
+	if g == nil || !w.InModule(g) || g.Blocks == nil {
+		return ""
+	}
+	return c15PredZeroField(w, g, f.Rel == "true")
+}
+
+// c15GetterField: v is the result of an in-module getter whose every return is
+// the SwapData field X of its receiver/argument: "SwapData.X".
+func c15GetterField(w *an.World, v ssa.Value) string {
+	for {
+		switch x := v.(type) {
+		case *ssa.ChangeType:
+			v = x.X
+			continue
+		case *ssa.Convert:
+			v = x.X
+			continue
+		}
+		break
+	}
+	call, ok := v.(*ssa.Call)
+	if !ok {
+		return ""
+	}
+	g := call.Common().StaticCallee()
+	if g == nil || !w.InModule(g) || g.Blocks == nil || g.Signature.Results().Len() != 1 {
+		return ""
+	}
+	field := ""
+	for _, r := range an.Returns(g) {
+		if len(r.Results) != 1 {
+			return ""
+		}
+		t := w.Term(r.Results[0])
+		if !strings.HasPrefix(t, "field:SwapData.") || strings.Contains(t, ">") || (field != "" && field != t) {
+			return ""
+		}
+		field = t
+	}
+	return strings.TrimPrefix(field, "field:")
+}
+
+// c15PredZeroField: field X such that every return of g that may yield `want`
+// happens only when SwapData.X is zero; "" if there is no such field.
+func c15PredZeroField(w *an.World, g *ssa.Function, want bool) string {
+	res := g.Signature.Results()
+	if res.Len() != 1 {
+		return ""
+	}
+	if b, ok := res.At(0).Type().Underlying().(*types.Basic); !ok || b.Info()&types.IsBoolean == 0 {
+		return ""
+	}
+	field := ""
+	okAll := true
+	note := func(fld string) {
+		if fld == "" || (field != "" && field != fld) {
+			okAll = false
+			return
+		}
+		field = fld
+	}
+	var eval func(v ssa.Value, blk *ssa.BasicBlock, edge []an.Fact, depth int)
+	eval = func(v ssa.Value, blk *ssa.BasicBlock, edge []an.Fact, depth int) {
+		if depth > 6 {
+			okAll = false
+			return
+		}
+		switch x := v.(type) {
+		case *ssa.Const:
+			if x.Value == nil || x.Value.Kind() != constant.Bool {
+				okAll = false
+				return
+			}
+			if constant.BoolVal(x.Value) != want {
+				return
+			}
+			fld := ""
+			for _, f := range append(append([]an.Fact{}, w.FactsDominatingBlock(blk)...), edge...) {
+				if z := c15ZeroGuardField(f); z != "" {
+					fld = z
+				}
+			}
+			note(fld)
+		case *ssa.BinOp:
+			// (X == zero) yields `want` only when X is zero iff the comparison's
+			// polarity equals want
+			fld, isEq := c15ZeroCompare(w, x)
+			if fld == "" || isEq != want {
+				okAll = false
+				return
+			}
+			note(fld)
+		case *ssa.UnOp:
+			if x.Op == token.NOT {
+				// !(inner): want from inner == !want
+				sub := c15PredValueZero(w, x.X, !want)
+				note(sub)
+				return
+			}
+			okAll = false
+		case *ssa.Phi:
+			for i, e := range x.Edges {
+				pred := x.Block().Preds[i]
+				var ef []an.Fact
+				for _, f := range w.Facts(g) {
+					if f.Edge.From == pred && f.Edge.To() == x.Block() {
+						ef = append(ef, f)
+					}
+				}
+				eval(e, pred, ef, depth+1)
+			}
+		default:
+			okAll = false
+		}
+	}
+	for _, r := range an.Returns(g) {
+		if len(r.Results) != 1 {
+			return ""
+		}
+		eval(r.Results[0], r.Block(), nil, 0)
+	}
+	if !okAll {
+		return ""
+	}
+	return field
+}
+
+// c15PredValueZero: for a comparison value, the field that is zero whenever the
+// value equals want.
+func c15PredValueZero(w *an.World, v ssa.Value, want bool) string {
+	bo, ok := v.(*ssa.BinOp)
+	if !ok {
+		return ""
+	}
+	fld, isEq := c15ZeroCompare(w, bo)
+	if fld == "" || isEq != want {
+		return ""
+	}
+	return fld
+}
+
+// c15ZeroCompare recognises `swap.X == ""` / `swap.X != nil` …; isEq tells
+// whether the comparison is true when X is zero.
+func c15ZeroCompare(w *an.World, bo *ssa.BinOp) (field string, isEq bool) {
+	if bo.Op != token.EQL && bo.Op != token.NEQ {
+		return "", false
+	}
+	for _, pair := range [][2]ssa.Value{{bo.X, bo.Y}, {bo.Y, bo.X}} {
+		zero := an.IsNilConst(pair[1])
+		if s, ok := an.ConstString(pair[1]); ok && s == "" {
+			zero = true
+		}
+		if !zero {
+			continue
+		}
+		t := w.Term(pair[0])
+		if strings.HasPrefix(t, "field:SwapData.") && !strings.Contains(t, ">") {
+			return strings.TrimPrefix(t, "field:"), bo.Op == token.EQL
+		}
+	}
+	return "", false
+}
+
+// c15DoneRegion: the blocks of fn that can execute while field is already set
+// (every edge that carries the fact `field is zero`, directly or through a
+// predicate helper, removed).
+func c15DoneRegion(w *an.World, fn *ssa.Function, field string) map[*ssa.BasicBlock]bool {
+	if len(fn.Blocks) == 0 {
+		return nil
+	}
+	cut := cutEdges(w, fn, func(f an.Fact) bool { return c15ZeroFactField(w, f) == field })
+	return an.ReachBlocks([]*ssa.BasicBlock{fn.Blocks[0]}, cut, nil)
+}
+
+// ---- call index and call chains ------------------------------------------------------
+
+// c15CallIdx: production call sites per static callee; a closure passed as an
+// argument counts as called by the call it is passed to (as in an.Summary).
+type c15CallIdx struct {
+	sites map[*ssa.Function][]ssa.CallInstruction
+}
+
+var c15IdxCache sync.Map // *an.World -> *c15CallIdx
+
+func c15BuildCallIdx(w *an.World) *c15CallIdx {
+	if v, ok := c15IdxCache.Load(w); ok {
+		return v.(*c15CallIdx)
+	}
+	idx := &c15CallIdx{sites: map[*ssa.Function][]ssa.CallInstruction{}}
+	defer c15IdxCache.Store(w, idx)
+	for _, fn := range prodFuncs(w) {
+		if isDummy(w, fn) {
+			continue
+		}
+		for _, call := range an.Calls(fn) {
+			for _, g := range c15Callees(w, call) {
+				idx.sites[g] = append(idx.sites[g], call)
+			}
+		}
+	}
+	return idx
+}
+
+// c15Callees: the in-module functions a call runs synchronously (its static
+// callee and closures passed to it).
+func c15Callees(w *an.World, call ssa.CallInstruction) []*ssa.Function {
+	var out []*ssa.Function
+	if g := call.Common().StaticCallee(); g != nil && w.InModule(g) && g.Blocks != nil {
+		out = append(out, g)
+	}
+	for _, a := range call.Common().Args {
+		if mc, ok := a.(*ssa.MakeClosure); ok {
+			if g, ok := mc.Fn.(*ssa.Function); ok && g.Blocks != nil {
+				out = append(out, g)
+			}
+		}
+	}
+	return out
+}
+
+// c15Step is one call of a chain: Call is an instruction of Fn.
+type c15Step struct {
+	Fn   *ssa.Function
+	Call ssa.CallInstruction
+}
+
+// c15Chains returns the static call chains root -> … -> site (depth <= 6): each
+// chain lists the call made in root, the call made in its callee, …, and ends
+// with site itself. `go` statements are followed only when followGo is set.
+func c15Chains(w *an.World, idx *c15CallIdx, root *ssa.Function, site ssa.CallInstruction, followGo bool) [][]c15Step {
+	target := site.Parent()
+	// functions from which target is reachable
+	canReach := map[*ssa.Function]bool{target: true}
+	frontier := []*ssa.Function{target}
+	for d := 0; d < 6 && len(frontier) > 0; d++ {
+		var next []*ssa.Function
+		for _, f := range frontier {
+			for _, s := range idx.sites[f] {
+				if p := s.Parent(); !canReach[p] {
+					canReach[p] = true
+					next = append(next, p)
+				}
+			}
+		}
+		frontier = next
+	}
+	var out [][]c15Step
+	onPath := map[*ssa.Function]bool{}
+	var rec func(f *ssa.Function, path []c15Step)
+	rec = func(f *ssa.Function, path []c15Step) {
+		if len(out) >= 24 {
+			return
+		}
+		if f == target {
+			out = append(out, append(append([]c15Step{}, path...), c15Step{f, site}))
+			return
+		}
+		if len(path) >= 6 {
+			return
+		}
+		onPath[f] = true
+		for _, call := range an.Calls(f) {
+			if _, isGo := call.(*ssa.Go); isGo && !followGo {
+				continue
+			}
+			for _, g := range c15Callees(w, call) {
+				if canReach[g] && !onPath[g] {
+					rec(g, append(path, c15Step{f, call}))
+				}
+			}
+		}
+		onPath[f] = false
+	}
+	if canReach[root] {
+		rec(root, nil)
+	}
+	return out
+}
+
+// ==== shared-end ====
+
+// c15Scope: RecoverSwaps with the closures, goroutines and in-module helpers it
+// runs (depth <= 4).
+func c15Scope(w *an.World, rs *ssa.Function) []*ssa.Function {
+	seen := map[*ssa.Function]bool{rs: true}
+	out := []*ssa.Function{rs}
+	frontier := []*ssa.Function{rs}
+	rec := w.Func("swap", "(*SwapStateMachine).Recover")
+	for d := 0; d < 4 && len(frontier) > 0; d++ {
+		var next []*ssa.Function
+		add := func(g *ssa.Function) {
+			if g != nil && !seen[g] && g.Blocks != nil && w.InModule(g) && g != rec {
+				seen[g] = true
+				out = append(out, g)
+				next = append(next, g)
+			}
+		}
+		for _, f := range frontier {
+			for _, a := range f.AnonFuncs {
+				add(a)
+			}
+			for _, call := range an.Calls(f) {
+				for _, g := range c15Callees(w, call) {
+					// only helpers of the service layer: the body of the state machine is not
+					// part of the recovery dispatch
+					if w.FnRel(g) == "swap" {
+						add(g)
+					}
+				}
+			}
+		}
+		frontier = next
+	}
+	return out
+}
+
+// ---- R2/R4 helpers ----------------------------------------------------------------------
+
 // c15DynType names the concrete message type behind an interface argument.
 func c15DynType(v ssa.Value) string {
 	if mi, ok := v.(*ssa.MakeInterface); ok {
@@ -344,98 +1138,296 @@ func c15DynType(v ssa.Value) string {
 	return ""
 }
 
+// c15DynTypes resolves the concrete types of interface value v used at call
+// `at` (reached from root): a parameter is resolved at the calls of the chains
+// root -> at; resolved is false when some origin stays unknown.
+func c15DynTypes(w *an.World, idx *c15CallIdx, root *ssa.Function, at ssa.CallInstruction, v ssa.Value) (names []string, resolved bool) {
+	set := map[string]bool{}
+	resolved = true
+	var val func(v ssa.Value, ch []c15Step, depth int)
+	val = func(v ssa.Value, ch []c15Step, depth int) {
+		if depth > 8 {
+			resolved = false
+			return
+		}
+		switch x := v.(type) {
+		case *ssa.MakeInterface:
+			if n := an.NamedOf(x.X.Type()); n != nil {
+				set[n.Obj().Name()] = true
+			} else {
+				resolved = false
+			}
+		case *ssa.ChangeInterface:
+			val(x.X, ch, depth+1)
+		case *ssa.Const:
+			if !an.IsNilConst(x) {
+				resolved = false
+			}
+		case *ssa.Call:
+			// an in-module accessor/constructor that returns the interface: its returns
+			g := x.Common().StaticCallee()
+			if g == nil || !w.InModule(g) || g.Blocks == nil || g.Signature.Results().Len() != 1 {
+				resolved = false
+				return
+			}
+			for _, r := range an.Returns(g) {
+				if len(r.Results) == 1 {
+					val(r.Results[0], nil, depth+1)
+				}
+			}
+		case *ssa.Phi:
+			for _, e := range x.Edges {
+				val(e, ch, depth+1)
+			}
+		case *ssa.Parameter:
+			// ch ends with the step inside x.Parent(); the call that entered it is the previous step
+			if len(ch) < 2 {
+				resolved = false
+				return
+			}
+			prev := ch[len(ch)-2]
+			callee := prev.Call.Common().StaticCallee()
+			if callee != x.Parent() {
+				resolved = false // entered as a closure argument: no parameter binding
+				return
+			}
+			args := prev.Call.Common().Args
+			for i, p := range x.Parent().Params {
+				if p == x && i < len(args) {
+					val(args[i], ch[:len(ch)-1], depth+1)
+					return
+				}
+			}
+			resolved = false
+		default:
+			if n := an.NamedOf(v.Type()); n != nil {
+				if _, isI := n.Underlying().(*types.Interface); !isI {
+					set[n.Obj().Name()] = true
+					return
+				}
+			}
+			resolved = false
+		}
+	}
+	if _, isPar := v.(*ssa.Parameter); !isPar {
+		val(v, nil, 0)
+	} else {
+		chains := c15Chains(w, idx, root, at, false)
+		if len(chains) == 0 {
+			resolved = false
+		}
+		for _, ch := range chains {
+			val(v, ch, 0)
+		}
+	}
+	return sortedKeys(set), resolved
+}
+
 // c15SendsCancel: the state's action marshals a CancelMessage and sends it.
 func c15SendsCancel(w *an.World, t *TI, s string, marshal *ssa.Function) bool {
+	idx := c15BuildCallIdx(w)
 	if !t.Sum[s].HasEffect(fxSendMessage) {
 		return false
 	}
-	for _, ef := range t.Sum[s].Effects {
-		if ef.Info.Static == marshal {
-			args := ef.Info.Instr.Common().Args
-			if len(args) == 1 && c15DynType(args[0]) == "CancelMessage" {
-				return true
+	for _, ex := range t.Sum[s].Execs {
+		for _, ef := range w.Summary(ex).Effects {
+			if ef.Info.Static == marshal {
+				args := ef.Info.Instr.Common().Args
+				if len(args) != 1 {
+					continue
+				}
+				tns, _ := c15DynTypes(w, idx, ex, ef.Info.Instr, args[0])
+				for _, tn := range tns {
+					if tn == "CancelMessage" {
+						return true
+					}
+				}
 			}
 		}
 	}
 	return false
 }
 
-// c15TrueSet extracts, for a func() bool that is a switch / if-chain over one
-// string field, the set of constants for which it returns true.
-func c15TrueSet(w *an.World, fn *ssa.Function, field string) (map[string]bool, bool) {
-	out := map[string]bool{}
-	for _, r := range an.Returns(fn) {
-		if len(r.Results) != 1 {
-			return nil, false
-		}
-		cv, ok := r.Results[0].(*ssa.Const)
-		if !ok {
-			// phi of constants: resolve per incoming edge
-			phi, isPhi := r.Results[0].(*ssa.Phi)
-			if !isPhi {
-				return nil, false
-			}
-			for i, e := range phi.Edges {
-				ec, ok := e.(*ssa.Const)
-				if !ok {
-					return nil, false
-				}
-				if ec.Value.String() != "true" {
-					continue
-				}
-				pred := phi.Block().Preds[i]
-				vals := c15EqConsts(w, w.FactsDominatingBlock(pred), field)
-				// plus the edge pred -> phi block itself
-				for _, f := range w.Facts(fn) {
-					if f.Edge.From == pred && f.Edge.To() == phi.Block() {
-						vals = append(vals, c15EqConsts(w, []an.Fact{f}, field)...)
+// ---- R3: evaluating IsFinished --------------------------------------------------------
+
+// c15FinishedSet evaluates the boolean function fn for `field == K`, for every K
+// of universe and every string constant fn compares field with, by partial
+// evaluation of its control flow (conditions that do not depend on field are
+// followed both ways). It returns the set of K for which fn can only return
+// true; nil (with a reason) when some return value cannot be evaluated or fn
+// may return both values for some K.
+func c15FinishedSet(w *an.World, fn *ssa.Function, field string, universe map[string]bool) (map[string]bool, string) {
+	if len(fn.Blocks) == 0 {
+		return nil, "no body"
+	}
+	cands := map[string]bool{}
+	for k := range universe {
+		cands[k] = true
+	}
+	isField := func(v ssa.Value) bool { return strings.Contains(w.Term(v), "field:"+field) }
+	for _, b := range fn.Blocks {
+		for _, in := range b.Instrs {
+			if bo, ok := in.(*ssa.BinOp); ok && (bo.Op == token.EQL || bo.Op == token.NEQ) {
+				for _, pair := range [][2]ssa.Value{{bo.X, bo.Y}, {bo.Y, bo.X}} {
+					if s, ok := an.ConstString(pair[1]); ok && isField(pair[0]) {
+						cands[s] = true
 					}
 				}
-				if len(vals) == 0 {
-					return nil, false
-				}
-				for _, v := range vals {
-					out[v] = true
-				}
-			}
-			continue
-		}
-		if cv.Value == nil || cv.Value.String() != "true" {
-			continue
-		}
-		vals := c15EqConsts(w, w.FactsDominatingBlock(r.Block()), field)
-		if len(vals) == 0 {
-			return nil, false
-		}
-		for _, v := range vals {
-			out[v] = true
-		}
-	}
-	return out, len(out) > 0
-}
-
-func c15EqConsts(w *an.World, fs []an.Fact, field string) []string {
-	var out []string
-	for _, f := range fs {
-		if !f.NonNum || f.Rel != "==" {
-			continue
-		}
-		for _, pair := range [][2]string{{f.L, f.R}, {f.R, f.L}} {
-			if strings.Contains(pair[0], field) && strings.HasPrefix(pair[1], `"`) {
-				if s, err := unquote(pair[1]); err == nil {
-					out = append(out, s)
-				}
 			}
 		}
 	}
-	return out
-}
-
-func unquote(s string) (string, error) {
-	if len(s) >= 2 && s[0] == '"' && s[len(s)-1] == '"' {
-		return s[1 : len(s)-1], nil
+	out := map[string]bool{}
+	for k := range cands {
+		res, why := c15EvalFor(w, fn, isField, k)
+		if why != "" {
+			return nil, why
+		}
+		if res {
+			out[k] = true
+		}
 	}
-	return "", fmt.Errorf("not quoted")
+	// a value that is none of the constants
+	if res, why := c15EvalFor(w, fn, isField, "\x00other"); why != "" {
+		return nil, why
+	} else if res {
+		return nil, "IsFinished is true for state values it does not name (complement form)"
+	}
+	return out, ""
 }
 
-var _ = types.Typ
+// c15EvalFor: the value fn returns when field holds k ("" reason = decided).
+func c15EvalFor(w *an.World, fn *ssa.Function, isField func(ssa.Value) bool, k string) (result bool, why string) {
+	type tri int
+	const (
+		unk tri = iota
+		tt
+		ff
+	)
+	of := func(b bool) tri {
+		if b {
+			return tt
+		}
+		return ff
+	}
+	sawTrue, sawFalse := false, false
+	steps := 0
+	var walk func(b, pred *ssa.BasicBlock, env map[*ssa.Phi]ssa.Value, depth int)
+	var eval func(v ssa.Value, env map[*ssa.Phi]ssa.Value, at ssa.Instruction, depth int) tri
+	eval = func(v ssa.Value, env map[*ssa.Phi]ssa.Value, at ssa.Instruction, depth int) tri {
+		if depth > 12 {
+			return unk
+		}
+		switch x := v.(type) {
+		case *ssa.Const:
+			if x.Value != nil && x.Value.Kind() == constant.Bool {
+				return of(constant.BoolVal(x.Value))
+			}
+		case *ssa.BinOp:
+			if x.Op == token.EQL || x.Op == token.NEQ {
+				for _, pair := range [][2]ssa.Value{{x.X, x.Y}, {x.Y, x.X}} {
+					if s, ok := an.ConstString(pair[1]); ok && isField(pair[0]) {
+						return of((s == k) == (x.Op == token.EQL))
+					}
+				}
+			}
+		case *ssa.UnOp:
+			if x.Op == token.NOT {
+				switch eval(x.X, env, at, depth+1) {
+				case tt:
+					return ff
+				case ff:
+					return tt
+				}
+				return unk
+			}
+			if x.Op == token.MUL {
+				// defer-spilled result / local: the stores that reach this load
+				if al, ok := x.X.(*ssa.Alloc); ok {
+					stores, fromEntry := an.StoresReaching(x, al)
+					if len(stores) == 1 && !fromEntry {
+						return eval(stores[0].Val, env, at, depth+1)
+					}
+				}
+			}
+		case *ssa.Phi:
+			if e, ok := env[x]; ok {
+				return eval(e, env, at, depth+1)
+			}
+		}
+		return unk
+	}
+	walk = func(b, pred *ssa.BasicBlock, env map[*ssa.Phi]ssa.Value, depth int) {
+		steps++
+		if why != "" || steps > 20000 || depth > 400 {
+			if why == "" {
+				why = "control flow too large to evaluate"
+			}
+			return
+		}
+		// bind the phis of b for the edge pred -> b
+		if pred != nil {
+			ne := map[*ssa.Phi]ssa.Value{}
+			for p, v := range env {
+				ne[p] = v
+			}
+			for _, in := range b.Instrs {
+				phi, ok := in.(*ssa.Phi)
+				if !ok {
+					break
+				}
+				for i, p := range b.Preds {
+					if p == pred && i < len(phi.Edges) {
+						// resolve through already bound phis so the binding stays valid later
+						v := phi.Edges[i]
+						if inner, ok := v.(*ssa.Phi); ok {
+							if bound, ok := env[inner]; ok {
+								v = bound
+							}
+						}
+						ne[phi] = v
+					}
+				}
+			}
+			env = ne
+		}
+		last := b.Instrs[len(b.Instrs)-1]
+		switch x := last.(type) {
+		case *ssa.Return:
+			if len(x.Results) != 1 {
+				why = "unexpected result count"
+				return
+			}
+			switch eval(x.Results[0], env, x, 0) {
+			case tt:
+				sawTrue = true
+			case ff:
+				sawFalse = true
+			default:
+				why = "a returned value is not a constant or a comparison of " + "the state field with a constant (at " + w.Pos(x.Pos()) + ")"
+			}
+		case *ssa.If:
+			switch eval(x.Cond, env, x, 0) {
+			case tt:
+				walk(b.Succs[0], b, env, depth+1)
+			case ff:
+				walk(b.Succs[1], b, env, depth+1)
+			default:
+				walk(b.Succs[0], b, env, depth+1)
+				walk(b.Succs[1], b, env, depth+1)
+			}
+		case *ssa.Jump:
+			walk(b.Succs[0], b, env, depth+1)
+		case *ssa.Panic:
+		default:
+			why = "unsupported control flow"
+		}
+	}
+	walk(fn.Blocks[0], nil, map[*ssa.Phi]ssa.Value{}, 0)
+	if why != "" {
+		return false, why
+	}
+	if sawTrue && sawFalse {
+		return false, "for state " + k + " the result depends on more than the state field"
+	}
+	return sawTrue, ""
+}
